@@ -9,7 +9,7 @@
    Proofs/WritersDict.v: wf_db (keys, field names, roles unique up to case; every role has a person -- what the API
    builds), map_ids.  Proofs/WritersTree.v: parts_ok p := reparse_person p = Ok p, yaml_ok, xml_ok. *)
 From Pybtex Require Import Base.Prelude Base.PyChar Base.PyStr Model.BibtexStr Model.Names Model.Scanner Model.BibParser Model.Writers
-  Proofs.Writers Proofs.WritersDict Proofs.WritersTree Proofs.WritersQuote Proofs.WritersPerson Proofs.WritersChain Proofs.WritersField Proofs.WritersName Proofs.WritersBib Proofs.WritersNameList Proofs.WritersBibP Proofs.WritersTokens Proofs.WritersName0.
+  Proofs.Writers Proofs.WritersDict Proofs.WritersTree Proofs.WritersQuote Proofs.WritersPerson Proofs.WritersChain Proofs.WritersField Proofs.WritersName Proofs.WritersBib Proofs.WritersNameList Proofs.WritersBibP Proofs.WritersTokens Proofs.WritersName0 Proofs.WritersBool.
 
 (* ---- identifier lower-casing changes nothing but the letter case of keys, entry types, field names, roles *)
 Theorem lower_only_case : forall d, wf_db d -> lower_db d = Ok (map_ids lower d).
@@ -372,3 +372,23 @@ Example ex_nofirst_roundtrip :
   write_read latex_enc FBib ex_db_nofirst = Ok ex_db_nofirst /\
   chain latex_enc [FBib; FYaml; FBib; FXml] false ex_db_nofirst = Ok (map_ids lower ex_db_nofirst).
 Proof. split; vm_compute; reflexivity. Qed.
+
+(* ---- a BOOLEAN, computable well-formedness predicate for the file-level round trip with latexcodec's encoder
+   (Proofs/WritersBool.v [bibp_okb]: unique keys / field names / roles up to case; entry types, keys, field names the
+   reader's patterns accept; every field value, every joined name list and the preamble text brace-balanced,
+   fixed by normalize_whitespace and fixed by the encoder -- all three by evaluation; every person in one of the two
+   proved name shapes with no token "and") and its soundness: whenever the predicate EVALUATES to true the round trip
+   is the identity.  [allp_okb] adds "no field called type" and gives every chain of formats. *)
+Theorem bibtex_roundtrip_checked : forall d, bibp_okb d = true -> write_read latex_enc FBib d = Ok (norm_preamble d).
+Proof. exact bibtex_roundtrip_bool_pf. Qed.
+Print Assumptions bibtex_roundtrip_checked.
+
+Theorem chain_roundtrip_checked : forall fs pc d, allp_okb d = true -> chain latex_enc fs pc d = Ok (expect fs pc d).
+Proof. exact chain_roundtrip_bool_pf. Qed.
+Print Assumptions chain_roundtrip_checked.
+
+(* the predicate is satisfiable by non-trivial databases, and rejects the known counter-examples *)
+Example ex_checked : bibp_okb ex_db = true /\ allp_okb ex_db_nofirst = true /\ allp_okb ex_db_bib = true /\
+  bibp_okb (one_field_db (s2l "100%")) = false /\ bibp_okb (person_db and_person) = false /\
+  bibp_okb (person_db comma_person) = false /\ bibp_okb (one_field_db (s2l "a  b")) = false /\ allp_okb (field_db k_type (s2l "T")) = false.
+Proof. repeat split; vm_compute; reflexivity. Qed.
